@@ -429,3 +429,147 @@ Proof.
   - apply (bitop_wrap Z.lxor xorb); auto using Z.lxor_spec.
   - apply (bitop_wrap Z.land andb); auto using Z.land_spec.
 Qed.
+
+(* ---------------------------------------------------------------- nested expressions *)
+
+(* full strength: the run-time value of an operator result does not depend on whether it is stored
+   first or consumed directly by another operator *)
+Definition rt_context_independent : Prop :=
+  forall o1 o2 t1 t2 t3 a b c, wf_ity t1 -> wf_ity t2 -> wf_ity t3 ->
+    in_range t1 a -> in_range t2 b -> in_range t3 c ->
+    rt_nested_l o1 o2 t1 t2 t3 a b c = rt_stored_l o1 o2 t1 t2 t3 a b c.
+
+Lemma rt_nested_witnesses :
+  rt_nested_l Badd Bgt I8 I8 I8 127 1 0 = Rbool true /\ rt_stored_l Badd Bgt I8 I8 I8 127 1 0 = Rbool false /\
+  rt_nested_l Badd Bidiv U8 U8 U8 200 100 2 = Rval U8 150 /\ rt_stored_l Badd Bidiv U8 U8 U8 200 100 2 = Rval U8 22 /\
+  rt_nested_l Bsub Blt U8 U8 U8 100 200 0 = Rbool true /\ rt_stored_l Bsub Blt U8 U8 U8 100 200 0 = Rbool false.
+Proof. repeat split. Qed.
+
+Lemma rt_context_independent_refuted : ~ rt_context_independent.
+Proof.
+  intros H. specialize (H Badd Bgt I8 I8 I8 127 1 0).
+  vm_compute in H. assert (E : Rbool true = Rbool false) by (apply H; try reflexivity; split; congruence).
+  discriminate E.
+Qed.
+
+(* partial: the inner operator is + - * on operands of one signedness that are at least as wide
+   as C int - then the C type of the expression is its Nelua type and nothing is lost *)
+Lemma rt_bin_c_wide o t1 t2 a b : wf_ity t1 -> wf_ity t2 -> (o = Badd \/ o = Bsub \/ o = Bmul) ->
+  32 <= bits t1 -> 32 <= bits t2 -> mixed t1 t2 = false ->
+  rt_bin_c o t1 t2 t1 t2 a b = of_stored (rt_bin o t1 t2 a b).
+Proof.
+  intros H1 H2 Ho B1 B2 M.
+  assert (E : c_arith_type t1 t2 = promote_type t1 t2).
+  { revert B1 B2 M. ity_cases t1 H1; ity_cases t2 H2; vm_compute; intros; try reflexivity; try congruence; exfalso; auto. }
+  destruct Ho as [-> | [-> | ->]]; unfold rt_bin_c; cbn [is_shiftop is_cmpop orb andb]; rewrite M; cbn [plain_c];
+    [rewrite rt_add_modular by assumption; rewrite c_add_modular by (try assumption; reflexivity)
+    |rewrite rt_sub_modular by assumption; rewrite c_sub_modular by (try assumption; reflexivity)
+    |rewrite rt_mul_modular by assumption; rewrite c_mul_modular by (try assumption; reflexivity)];
+    cbn [omap of_stored rt_type is_shiftop is_bitop]; rewrite E; reflexivity.
+Qed.
+
+Lemma rt_context_independent_partial o1 o2 t1 t2 t3 a b c : wf_ity t1 -> wf_ity t2 ->
+  (o1 = Badd \/ o1 = Bsub \/ o1 = Bmul) -> 32 <= bits t1 -> 32 <= bits t2 -> mixed t1 t2 = false ->
+  (o2 = Badd \/ o2 = Bsub \/ o2 = Bmul) -> 32 <= bits t3 -> mixed (promote_type t1 t2) t3 = false -> wf_ity t3 ->
+  rt_nested_l o1 o2 t1 t2 t3 a b c = rt_stored_l o1 o2 t1 t2 t3 a b c.
+Proof.
+  intros H1 H2 Ho1 B1 B2 M1 Ho2 B3 M2 H3.
+  unfold rt_nested_l, rt_stored_l. rewrite (rt_bin_c_wide o1 t1 t2 a b) by assumption.
+  assert (HT : rt_type o1 t1 t2 = promote_type t1 t2) by (destruct Ho1 as [-> | [-> | ->]]; reflexivity).
+  assert (Hr : exists v, rt_bin o1 t1 t2 a b = Rval (promote_type t1 t2) v).
+  { destruct Ho1 as [-> | [-> | ->]]; eexists;
+      [apply rt_add_modular | apply rt_sub_modular | apply rt_mul_modular]; assumption. }
+  destruct Hr as [v Hr]. rewrite Hr. cbn [of_stored]. rewrite HT.
+  assert (Hw : wf_ity (promote_type t1 t2)) by (ity_cases t1 H1; ity_cases t2 H2; reflexivity).
+  assert (Bp : 32 <= bits (promote_type t1 t2)).
+  { revert B1 B2. ity_cases t1 H1; ity_cases t2 H2; vm_compute; intros; congruence. }
+  rewrite (rt_bin_c_wide o2 (promote_type t1 t2) t3 v c) by assumption.
+  assert (Hr2 : exists w, rt_bin o2 (promote_type t1 t2) t3 v c = Rval (rt_type o2 (promote_type t1 t2) t3) w).
+  { destruct Ho2 as [-> | [-> | ->]]; eexists;
+      [apply rt_add_modular | apply rt_sub_modular | apply rt_mul_modular]; assumption. }
+  destruct Hr2 as [w Hr2]. rewrite Hr2. cbn [of_stored].
+  assert (Hc : is_cmpop o2 = false) by (destruct Ho2 as [-> | [-> | ->]]; reflexivity). rewrite Hc.
+  assert (Hwt : wf_ity (rt_type o2 (promote_type t1 t2) t3)).
+  { destruct Ho2 as [-> | [-> | ->]]; cbn; ity_cases t3 H3; revert Hw; generalize (promote_type t1 t2); intros p Hp; ity_cases p Hp; reflexivity. }
+  (* the stored value is already in the range of its type *)
+  assert (Hin : in_range (rt_type o2 (promote_type t1 t2) t3) w).
+  { destruct Ho2 as [-> | [-> | ->]];
+      [rewrite rt_add_modular in Hr2 by assumption | rewrite rt_sub_modular in Hr2 by assumption | rewrite rt_mul_modular in Hr2 by assumption];
+      injection Hr2 as <-; apply wrap_range; assumption. }
+  rewrite c_conv_inrange by assumption. reflexivity.
+Qed.
+
+(* ---------------------------------------------------------------- untyped literals *)
+
+Lemma arith_op_type_wf lt rt a b lu ru : wf_ity lt -> wf_ity rt -> wf_ity (arith_op_type lt rt a b lu ru).
+Proof.
+  intros Hl Hr. unfold arith_op_type, attrs_type.
+  destruct (negb lu && ru); [apply pfv_wf; exact Hl|].
+  destruct (negb ru && lu); [apply pfv_wf; exact Hr|].
+  ity_cases lt Hl; ity_cases rt Hr; reflexivity.
+Qed.
+
+(* + - * // % with an untyped literal on either side (types.promote_type_for_attrs: the operation
+   type is the typed operand's type promoted for the literal's value): the fold is the exact result
+   carried by a type that holds it whenever a 64 bit type can *)
+Lemma fold_exact_any_flags o lt rt a b lu ru e : wf_ity lt -> wf_ity rt -> exact_arith o = true ->
+  exact_bin o lt a b = Some e ->
+  (in_range I64 e \/ (sgn (arith_op_type lt rt a b lu ru) = false /\ 0 <= e /\ in_range U64 e)) ->
+  exists t', fold_bin o lt rt a b lu ru = Fval t' e /\ in_range t' e /\ baked t' e = e.
+Proof.
+  intros Hl Hr Ho He Hfit.
+  pose proof (arith_op_type_wf lt rt a b lu ru Hl Hr) as Hw.
+  set (t0 := arith_op_type lt rt a b lu ru) in *.
+  destruct (promote_fits t0 e Hw Hfit) as [Hin Hwf].
+  exists (promote_type_for_value t0 e).
+  assert (Hf : fold_bin o lt rt a b lu ru = Fval (promote_type_for_value t0 e) (wrap_value (promote_type_for_value t0 e) e)).
+  { unfold fold_bin, op_type. fold t0.
+    destruct o; try discriminate Ho; cbn [is_cmpop is_divop is_shiftop is_bitop negb andb raw_value exact_bin] in *;
+      try (injection He as <-; reflexivity);
+      destruct (b =? 0); try discriminate He; injection He as <-; reflexivity. }
+  rewrite Hf, wrap_value_id by exact Hin. split; [reflexivity|]. split; [exact Hin|]. apply baked_id; assumption.
+Qed.
+
+Example ex_untyped : fold_bin Badd I8 I64 5 300 false true = Fval I16 305 /\ fold_bin Badd I64 U8 (-1) 200 true false = Fval I16 199.
+Proof. split; reflexivity. Qed.
+
+(* ---------------------------------------------------------------- statements used by Properties.v *)
+
+(* full strength for the shift operators: every count of the right operand's type *)
+Definition rt_shifts_modular : Prop := forall lt rt a b, wf_ity lt -> wf_ity rt -> in_range lt a -> in_range rt b ->
+  rt_bin Bshl lt rt a b = Rval lt (wrap lt (exact_shl lt a b)) /\
+  rt_bin Bshr lt rt a b = Rval lt (wrap lt (exact_shr lt a b)) /\
+  rt_bin Basr lt rt a b = Rval lt (wrap lt (exact_asr lt a b)).
+
+Lemma rt_shifts_modular_refuted : ~ rt_shifts_modular.
+Proof.
+  intros H. destruct (H U64 U64 82 18446744073709551615) as [H1 _]; try reflexivity; try (vm_compute; split; congruence).
+  vm_compute in H1. discriminate.
+Qed.
+
+Lemma rt_shifts_modular_partial lt rt a b : wf_ity lt -> in_range lt a -> in_range I64 b ->
+  rt_bin Bshl lt rt a b = Rval lt (wrap lt (exact_shl lt a b)) /\
+  rt_bin Bshr lt rt a b = Rval lt (wrap lt (exact_shr lt a b)) /\
+  rt_bin Basr lt rt a b = Rval lt (wrap lt (exact_asr lt a b)).
+Proof.
+  intros. repeat split; [apply rt_shl_partial | apply rt_shr_partial | apply rt_asr_partial]; assumption.
+Qed.
+
+Lemma shift_helpers_correct t f a b : in_range t a -> in_range I64 b ->
+  (In (t, f) shl_table -> ccall Gnu f [a; b] = Oval (wrap t (exact_shl t a b))) /\
+  (In (t, f) shr_table -> wf_ity t -> ccall Gnu f [a; b] = Oval (wrap t (exact_shr t a b))) /\
+  (In (t, f) asr_table -> ccall Gnu f [a; b] = Oval (wrap t (exact_asr t a b))).
+Proof.
+  intros Ha Hb. repeat split; intros.
+  - apply shl_helper_correct; assumption.
+  - apply shr_helper_correct; assumption.
+  - apply asr_helper_correct; assumption.
+Qed.
+
+Lemma comparisons_agree o lt rt a b : wf_ity lt -> wf_ity rt -> is_cmpop o = true ->
+  in_range lt a -> in_range rt b ->
+  rt_bin o lt rt a b = Rbool (cmp_value o a b) /\ fold_bin o lt rt a b false false = Fbool (cmp_value o a b).
+Proof. intros. split; [apply rt_cmp_exact | apply fold_cmp_exact]; assumption. Qed.
+
+Lemma wrap_value_correct_range t v : wf_ity t -> wrap_value t v = wrap t v /\ in_range t (wrap_value t v).
+Proof. intros Ht. split; [apply wrap_value_correct | apply wrap_value_range]; exact Ht. Qed.
